@@ -23,33 +23,33 @@ pub struct Spec {
 }
 
 pub const SPECS: &[Spec] = &[
-    Spec { prop: "C01", engine: "H", level: "exploration", quick: 6000, thorough: 60_000,
+    Spec { prop: "C01", engine: "H", level: "exploration", quick: 12000, thorough: 100000,
         rule: "seeded histories ((add|overwrite|delete|clear)* build)+ over 1-2 indexes, all 7 metrics; non-trivial+distinct = distinct forest shapes (per tree: depth, #splits, #buckets, #item-children, #zero-normals, #items) reached after >= 1 incremental rebuild of a forest with >= 1 split" },
-    Spec { prop: "C02", engine: "H", level: "exploration", quick: 4000, thorough: 40_000,
+    Spec { prop: "C02", engine: "H", level: "exploration", quick: 8000, thorough: 60000,
         rule: "C01 histories with accurate value profiles; exhaustive (search_k=MAX) by_vector/by_item battery after every build/commit/restart vs f64 brute force; non-trivial+distinct = distinct logical states of an index with >= 1 split on which the battery ran" },
-    Spec { prop: "C03", engine: "H", level: "exploration", quick: 3000, thorough: 30_000,
+    Spec { prop: "C03", engine: "H", level: "exploration", quick: 8000, thorough: 50000,
         rule: "C01 histories; ~60 sampled points of the (count, search_k, oversampling, candidates) lattice + budget chains + default-budget and by_item/by_vector equivalences per snapshot; non-trivial+distinct = distinct logical states with >= 2 trees or >= 1 split on which the lattice ran" },
-    Spec { prop: "C04", engine: "H", level: "exploration", quick: 3000, thorough: 40_000,
+    Spec { prop: "C04", engine: "H", level: "exploration", quick: 10000, thorough: 60000,
         rule: "C01 histories with accurate profiles; per item, per tree, per split on its path the f64 margin decides the side; search_k=1 self-lookups; non-trivial+distinct = distinct logical states in which >= 1 (item, plane) placement with non-zero margin was checked" },
-    Spec { prop: "C05", engine: "H", level: "exploration", quick: 6000, thorough: 80_000,
+    Spec { prop: "C05", engine: "H", level: "exploration", quick: 15000, thorough: 120000,
         rule: "histories of add/append/overwrite/delete/clear/build/commit/abort/restart; read-back after every op vs BTreeMap model, bit-exact; non-trivial+distinct = distinct logical database states (dump hashes) compared" },
-    Spec { prop: "C06", engine: "H", level: "exploration", quick: 6000, thorough: 80_000,
+    Spec { prop: "C06", engine: "H", level: "exploration", quick: 20000, thorough: 150000,
         rule: "same histories; need_build + Reader::open under all 7 metrics after every op vs 3-state automaton; non-trivial+distinct = distinct logical database states in which the automaton was compared" },
-    Spec { prop: "C07", engine: "H", level: "exploration", quick: 4000, thorough: 40_000,
+    Spec { prop: "C07", engine: "H", level: "exploration", quick: 15000, thorough: 100000,
         rule: "histories over 2-4 indexes from {0,1,2,255,256,65534,65535}; other indexes' key ranges byte-compared around every op; non-trivial+distinct = distinct logical states of multi-index databases compared" },
-    Spec { prop: "C14", engine: "H", level: "exploration", quick: 600, thorough: 8_000,
+    Spec { prop: "C14", engine: "H", level: "exploration", quick: 600, thorough: 8000,
         rule: "histories with >= 200 items, memory hints from 0 to ample, 4 page-placement models; build must end Ok within the poll-tick budget, then C01+C02; non-trivial+distinct = distinct logical states produced by builds that ran with a memory hint" },
-    Spec { prop: "C15", engine: "H", level: "exploration", quick: 5000, thorough: 40_000,
+    Spec { prop: "C15", engine: "H", level: "exploration", quick: 12000, thorough: 80000,
         rule: "grow/shrink histories, n_trees 1..20 or unset, split_after 1..50 or unset, dim 1 over-weighted; tree count and bucket bound after every build; non-trivial+distinct = distinct forest shapes checked" },
-    Spec { prop: "C16", engine: "H", level: "exploration", quick: 2000, thorough: 30_000,
+    Spec { prop: "C16", engine: "H", level: "exploration", quick: 5000, thorough: 50000,
         rule: "every dump of every run decoded by the harness's reference decoder; golden fixtures loaded raw and continued; non-trivial+distinct = distinct logical database states decoded" },
-    Spec { prop: "C17", engine: "H", level: "exploration", quick: 2000, thorough: 40_000,
+    Spec { prop: "C17", engine: "H", level: "exploration", quick: 10000, thorough: 80000,
         rule: "cosine histories; layout inverted to v0.4 harness-side, real upgrades run, byte comparison; non-trivial+distinct = distinct database states upgraded" },
-    Spec { prop: "C18", engine: "H", level: "exploration", quick: 3000, thorough: 40_000,
+    Spec { prop: "C18", engine: "H", level: "exploration", quick: 12000, thorough: 80000,
         rule: "histories with prepare_changing_distance over all ordered metric pairs; non-trivial+distinct = distinct (from,to,state) cases" },
-    Spec { prop: "C19", engine: "H", level: "exploration", quick: 5000, thorough: 100_000,
+    Spec { prop: "C19", engine: "H", level: "exploration", quick: 40000, thorough: 300000,
         rule: "rejected calls interleaved at every position; dump equality before/after; non-trivial+distinct = distinct logical states on which a rejected call was evaluated" },
-    Spec { prop: "C20", engine: "H", level: "exploration", quick: 2000, thorough: 40_000,
+    Spec { prop: "C20", engine: "H", level: "exploration", quick: 5000, thorough: 40000,
         rule: "degenerate value profiles (constant, k-distinct, zero-mixed, collinear, ternary, huge, tiny, non-finite, arbitrary bits); non-trivial+distinct = distinct logical states built from degenerate data" },
 ];
 
@@ -676,9 +676,9 @@ pub fn check_main(prop: &str, tier: &str) -> i32 {
         return crate::engine_c13::check(tier);
     }
     let (engine, level, n, rule) = match prop {
-        "C08" => ("A", "exploration", if tier == "thorough" { 40_000 } else { 3000 }, crate::engine_a::RULE),
-        "C09" => ("K", "fault_enumeration", if tier == "thorough" { 4000 } else { 300 }, crate::engine_k::RULE),
-        "C10" => ("F", "fault_enumeration", if tier == "thorough" { 1200 } else { 60 }, crate::engine_f::RULE),
+        "C08" => ("A", "exploration", if tier == "thorough" { 200_000 } else { 30_000 }, crate::engine_a::RULE),
+        "C09" => ("K", "fault_enumeration", if tier == "thorough" { 5000 } else { 600 }, crate::engine_k::RULE),
+        "C10" => ("F", "fault_enumeration", if tier == "thorough" { 1500 } else { 120 }, crate::engine_f::RULE),
         _ => match spec(prop) {
             Some(s) => (s.engine, s.level, if tier == "thorough" { s.thorough } else { s.quick }, s.rule),
             None => {
